@@ -115,7 +115,7 @@ func alphabetFor(builtins []Step, skipTx bool, full bool, nusers int, doubleDept
 
 // ---------------------------------------------------------------- generators
 
-const rule = "case = (pipeline, SkipDefaultTransaction, history); the built-in registrations read from callbacks/callbacks.go are replayed as recording stubs, then the history (Register / Before(t).Register / After(t).Register / Before(a).After(b).Register and the same requests chained After(b).Before(a) / Match(f) first in the chain / Replace / Remove / registration of a removed name again, over built-in names, user names u1..u4 used before or after their registration, an unknown name and '*') runs on the real processor and the pipeline is fired through db.Create/Find/Update/Delete/Row/Exec after every step. Streams: exhaustive = every in-domain history up to the tier's length over the small alphabet; main = random histories of length 1..8 kept outside the known-finding classes; known = histories inside a known-finding class (cyclic or *-unsatisfiable constraints, Replace of a * callback), judged like all others and reported as KNOWN-FINDING; backward = long histories (9..30 calls, up to ~40 compiled callbacks) inside the backward domain of c17_backward_domain_correct (requests name callbacks registered earlier - built-in or user, live, replaced or removed - or unregistered names, never '*'); edge = out-of-domain calls (duplicate names, Replace/Remove of names that are not live, constrained Replace, user Match guards): model = implementation only. distinct = distinct (pipeline, tx, history) ; non-trivial = in the domain, at least one Before/After request binds (live target or '*'), the last call returned nil and at least two callbacks fired."
+const rule = "case = (pipeline, SkipDefaultTransaction, history); the built-in registrations read from callbacks/callbacks.go are replayed as recording stubs, then the history (Register / Before(t).Register / After(t).Register / Before(a).After(b).Register and the same requests chained After(b).Before(a) / Match(f) first in the chain / Replace / Remove / registration of a removed name again, over built-in names, user names u1..u4 used before or after their registration, an unknown name and '*') runs on the real processor and the pipeline is fired through db.Create/Find/Update/Delete/Row/Exec after every step. Streams: exhaustive = every in-domain history up to the tier's length over the small alphabet; main = random histories of length 1..8 kept outside the known-finding classes; known = histories inside a known-finding class (cyclic or *-unsatisfiable constraints, Replace of a * callback), judged like all others and reported as KNOWN-FINDING; backward = long histories (9..30 calls, up to ~40 compiled callbacks) inside the backward domain of c17_backward_domain_correct (requests name callbacks registered earlier - built-in or user, live, replaced or removed - or unregistered names, never '*'); repeat = short histories that hit ONE user callback again and again (Replace of the replacement, Remove after Replace, registration of the removed name with new requests; requests incl. '*'); edge = out-of-domain calls (duplicate names, Replace/Remove of names that are not live, constrained Replace, user Match guards): model = implementation only. distinct = distinct (pipeline, tx, history) ; non-trivial = in the domain, at least one Before/After request binds (live target or '*'), the last call returned nil and at least two callbacks fired."
 
 func cloneSteps(h []Step) []Step { return append([]Step{}, h...) }
 
@@ -394,6 +394,76 @@ func backwardHistory(r *lib.Rng, pipeline string, skipTx bool, builtins []Step) 
 	return in
 }
 
+// repeatHistory: repeated operations on ONE user callback: Register(x) with random requests (built-in, user,
+// unknown name, "*", one- or two-sided), then 2..4 further calls that mostly hit x again - Replace of the
+// replacement, Remove after Replace, registration of the removed name with new requests - now and then
+// interleaved with a call on another name.  (The random main stream picks its victims uniformly among all live
+// names: on the large pipelines the same callback is rarely hit twice.)
+func repeatHistory(r *lib.Rng, pipeline string, skipTx bool, builtins []Step) Input {
+	in := Input{Pipeline: pipeline, SkipTx: skipTx, Steps: cloneSteps(builtins)}
+	var bnames []string
+	for _, b := range builtins {
+		bnames = append(bnames, b.Name)
+	}
+	users := []string{"u1", "u2", "u3"}
+	target := func() string {
+		switch r.Intn(10) {
+		case 0, 1, 2:
+			return lib.Pick(r, bnames)
+		case 3, 4:
+			return lib.Pick(r, users)
+		case 5:
+			return "zz:unknown"
+		}
+		return "*"
+	}
+	reg := func(name string) Step {
+		s := Step{Kind: "register", Name: name}
+		switch r.Intn(6) {
+		case 0:
+		case 1, 2:
+			s.Before = target()
+		case 3, 4:
+			s.After = target()
+		default:
+			s.Before, s.After = target(), target()
+			if r.Bool() {
+				s.Chain = "AB"
+			}
+		}
+		return s
+	}
+	live := map[string]bool{}
+	do := func(s Step) {
+		in.Steps = append(in.Steps, s)
+		switch s.Kind {
+		case "register":
+			live[s.Name] = true
+		case "remove":
+			delete(live, s.Name)
+		}
+	}
+	if r.Bool() {
+		do(reg("u2"))
+	}
+	do(reg("u1"))
+	for k := r.Range(2, 4); k > 0; k-- {
+		switch x := r.Intn(20); {
+		case !live["u1"]:
+			do(reg("u1"))
+		case x < 12:
+			do(Step{Kind: "replace", Name: "u1"})
+		case x < 17:
+			do(Step{Kind: "remove", Name: "u1"})
+		case !live["u3"]:
+			do(reg("u3"))
+		default:
+			do(Step{Kind: "replace", Name: "u3"})
+		}
+	}
+	return in
+}
+
 func generate(a lib.Args, bi map[string][]Step, base func(string) []Step, add func(string, Input)) {
 	r := lib.NewRng(a.Seed)
 	if a.Tier == "thorough" {
@@ -443,5 +513,15 @@ func generate(a lib.Args, bi map[string][]Step, base func(string) []Step, add fu
 	for i := 0; i < nb; i++ {
 		p := lib.Pick(r, pipelines)
 		add("backward", backwardHistory(r, p, r.Chance(1, 4), base(p)))
+	}
+	// repeated operations on one callback
+	for i := 0; i < nb; i++ {
+		p := lib.Pick(r, pipelines)
+		in := repeatHistory(r, p, r.Chance(1, 4), base(p))
+		kind := "repeat"
+		if sig, _ := sigOf(in); sig != "" {
+			kind = "known"
+		}
+		add(kind, in)
 	}
 }
